@@ -4,9 +4,9 @@
 //   pcm_dec  = ProxyClusterMeta::from_resp on [UMCTL, SETCLUSTER, tokens..]     repl_dec = ReplicatorMeta::from_resp
 //   pcm_zrt  = to_compressed_args + from_resp (the real serde_json + gzip + base64)
 //   pcm_zenc = compressed args in hex (implementation only; input of the base64 mutation sweep)
-//   task_str / task_unstr = `into_strings().join(" ")` (proxy/executor.rs handle_umctl_info_migration) and
-//                           `split(' ')` + MigrationTaskMeta::from_strings (coordinator/migration.rs parse_migration_task_meta;
-//                           that function is private: the two statements are repeated here and pinned textually by checks/C17.py)
+//   coord_infomgr <hex> = the coordinator's real MigrationStateRespChecker::check (private parse_migration_task_meta) on an INFOMGR
+//                         reply element; infomgr_e2e = the whole journey on real proxies (src/e2e.rs).  Nothing of the INFOMGR
+//                         pair is repeated in this harness.
 use crate::util::*;
 use futures::{Future, StreamExt};
 use parking_lot::Mutex;
@@ -534,27 +534,37 @@ pub fn run_case(rt: &tokio::runtime::Runtime, line: &str) -> String {
                 None => "err None".into(),
             }
         }
-        "task_str" => match rd.task() {
-            // proxy/executor.rs handle_umctl_info_migration
-            Ok(t) => format!("str {}", hex(t.into_strings().join(" ").as_bytes())),
-            Err(_) => UNC.into(),
-        },
-        "task_unstr" => {
-            // coordinator/migration.rs parse_migration_task_meta
-            let raw = unhex(rd.next());
-            let data = match std::str::from_utf8(&raw) {
-                Ok(s) => s,
-                Err(_) => return "err None".into(),
+        "infomgr_e2e" => {
+            // <name> <epoch> <k> {rl}: real migrations on two real proxies, real INFOMGR reply, real coordinator reader (src/e2e.rs)
+            let name = rd.name();
+            let epoch = rd.u64();
+            let k = rd.cnt();
+            let mut rls = vec![];
+            for _ in 0..k {
+                match rd.rl() {
+                    Ok(rl) => rls.push(rl),
+                    Err(_) => return UNC.into(),
+                }
+            }
+            let (name, epoch) = match (name, epoch) {
+                (Ok(n), Ok(e)) => (n, e),
+                _ => return UNC.into(),
             };
-            let mut it = data
-                .split(' ')
-                .map(ToString::to_string)
-                .collect::<Vec<String>>()
-                .into_iter()
-                .peekable();
-            match MigrationTaskMeta::from_strings(&mut it) {
-                Some(t) => format!("ok {}", pr_task(&t)),
-                None => "err None".into(),
+            match rt.block_on(crate::e2e::infomgr_journey(name, epoch, rls)) {
+                Err(e) => format!("journey-error {}", e),
+                Ok(j) => {
+                    let mut raw: Vec<String> = j.raw.iter().map(|s| hex(s)).collect();
+                    raw.sort();
+                    let dec = match j.decoded {
+                        Ok(ts) => {
+                            let mut v: Vec<String> = ts.iter().map(pr_task).collect();
+                            v.sort();
+                            format!("ok {} {}", v.len(), v.join(" ; "))
+                        }
+                        Err(_) => "err None".to_string(),
+                    };
+                    format!("reply {} | {}", raw.join(" "), dec)
+                }
             }
         }
         "sw_enc" => {
